@@ -315,6 +315,9 @@ def applyNested (D : Desc) (f : Fsm) (canEdit : Bool) : St → List Nested → S
     let s := if canEdit && bs.length < D.capOf f then
         (writeB D s f 0 (bs ++ [0])).setPos f bs.length else s
     applyNested D f canEdit s r
+  | s, .report n :: r =>
+    let s := if canEdit then s.setPos f n else s
+    applyNested D f canEdit s r
 
 /-! ### reading input -/
 
